@@ -340,7 +340,20 @@ pub fn emit_service(s: &Service, idx: usize, out: &mut String) {
     // driver
     let client_ty = format!("{sun}Client");
     let _ = writeln!(out, "    pub async fn run() {{");
-    let _ = writeln!(out, "        let (ct, st) = tarpc::transport::channel::unbounded();");
+    // every other service whose request/response types are serializable travels over the serde
+    // transport (bincode / JSON over an in-process byte pipe) instead of the in-memory channel
+    // (not those with a Context-typed argument: a serialized Context legitimately comes out with a
+    // slightly different deadline, so "same arguments" would need a looser comparison)
+    let has_ctx_arg = s.methods.iter().any(|m| m.args.iter().any(|(_, t)| *t == Ty::Ctx));
+    let over_wire = idx % 2 == 1 && !has_ctx_arg && !s.derive.contains("derive_serde = false") && !s.derive.contains("derive = [");
+    if over_wire {
+        let codec = if idx % 4 == 1 { "Bincode" } else { "Json" };
+        let _ = writeln!(out, "        let (cio, sio) = tokio::io::duplex(64);");
+        let _ = writeln!(out, "        let ct = tarpc::serde_transport::Transport::from((cio, tarpc::tokio_serde::formats::{codec}::default()));");
+        let _ = writeln!(out, "        let st = tarpc::serde_transport::Transport::from((sio, tarpc::tokio_serde::formats::{codec}::default()));");
+    } else {
+        let _ = writeln!(out, "        let (ct, st) = tarpc::transport::channel::unbounded();");
+    }
     let _ = writeln!(out, "        tokio::spawn(tarpc::server::BaseChannel::with_defaults(st).execute({sname}::serve(Impl)).for_each(|f| async move {{ tokio::spawn(f); }}));");
     let _ = writeln!(out, "        let client = {client_ty}::new(tarpc::client::Config::default(), ct).spawn();");
     let _ = writeln!(out, "        let names = Arc::new(Mutex::new(Vec::<String>::new()));");
@@ -373,7 +386,12 @@ pub fn emit_service(s: &Service, idx: usize, out: &mut String) {
             let _ = writeln!(out, "                let o = &log[0];");
             let _ = writeln!(out, "                if o.service != {sun:?} || o.method != {:?} {{ mismatch(format!(\"{tag}: routed to {{}}.{{}}\", o.service, o.method)); }}", unraw(&m.name));
             let _ = writeln!(out, "                if o.args != want_args {{ mismatch(format!(\"{tag}: implementor saw arguments {{}} but the client passed {{}}\", o.args, want_args)); }}");
-            let _ = writeln!(out, "                if o.deadline != ctx.deadline || o.trace != u128::from(ctx.trace_context.trace_id) {{ mismatch(format!(\"{tag}: implementor saw a different context\")); }}");
+            if over_wire && path == "client" {
+                // a serializing transport carries the remaining time: never earlier, later by at most the transit time
+                let _ = writeln!(out, "                if o.deadline < ctx.deadline || o.deadline > ctx.deadline + std::time::Duration::from_secs(300) || o.trace != u128::from(ctx.trace_context.trace_id) {{ mismatch(format!(\"{tag}: implementor saw a different context (trace {{:x}} vs {{:x}}, deadline off by {{:?}})\", o.trace, u128::from(ctx.trace_context.trace_id), o.deadline.saturating_duration_since(ctx.deadline))); }}");
+            } else {
+                let _ = writeln!(out, "                if o.deadline != ctx.deadline || o.trace != u128::from(ctx.trace_context.trace_id) {{ mismatch(format!(\"{tag}: implementor saw a different context\")); }}");
+            }
             let _ = writeln!(out, "                let want: {} = {}(o.inv * 131 + {mi});", rt.rust(), rt.val_fn());
             let _ = writeln!(out, "                match &got {{ Ok(v) if *v == want => {{}} other => mismatch(format!(\"{tag}: caller received {{:?}} but that invocation returned {{:?}}\", other.as_ref().map_err(|e| e.to_string()), want)) }}");
             let _ = writeln!(out, "            }}");
